@@ -106,6 +106,9 @@ class ConCtx(CtxBase):
             mod._real_binascii = mod.binascii
         mod.binascii = types.SimpleNamespace(crc32=(lambda data, crc=0: value)) if value is not None else mod._real_binascii
 
+    def loose_text(self, flag=True):
+        pass
+
     def unsigned_div(self, a, b): return a // b
 
 
